@@ -33,6 +33,8 @@ def worker_env(extra: dict | None = None) -> dict:
     env[GUARD] = "1"
     env.setdefault("PYTHONHASHSEED", "0")
     pp = [ROOT, os.path.join(ROOT, ".deps")]
+    if os.environ.get("XV_PYPATH"):  # mutant self-tests: import xdsl from a scratch worktree instead of /repo
+        pp = [os.environ["XV_PYPATH"]] + pp
     env["PYTHONPATH"] = os.pathsep.join(pp + [p for p in env.get("PYTHONPATH", "").split(os.pathsep) if p])
     env["PYTHONDONTWRITEBYTECODE"] = "1"
     if extra:
@@ -127,12 +129,16 @@ class Agg:
 
 
 def load_known(pid: str):
-    path = os.path.join(ROOT, "known_findings.json")
-    if not os.path.exists(path):
-        return {}
-    with open(path) as f:
-        data = json.load(f)
-    return {e["key"]: e for e in data.get("findings", []) if e["property"] == pid}
+    """Known findings: /verif/known_findings.json (index + fixed list) and one file per property under
+    /verif/known_findings.d/<ID>.json ({"findings": [{property, key, summary, witness}]}). Read-only at run time."""
+    out = {}
+    for path in (os.path.join(ROOT, "known_findings.json"), os.path.join(ROOT, "known_findings.d", pid + ".json")):
+        if not os.path.exists(path):
+            continue
+        with open(path) as f:
+            data = json.load(f)
+        out.update({e["key"]: e for e in data.get("findings", []) if e["property"] == pid})
+    return out
 
 
 def _safe(s: str) -> str:
@@ -199,7 +205,7 @@ def main_check(pid: str, tier: str, seed: int) -> int:
         else:
             new_by_key.setdefault(k, []).append(v)
 
-    rdir = os.path.join(ROOT, "replays", pid)
+    rdir = os.path.join(ROOT, ".work" if os.environ.get("XV_PYPATH") else "", "replays", pid)
     vio_lines = []
     if new_by_key:
         os.makedirs(rdir, exist_ok=True)
@@ -236,10 +242,13 @@ def main_check(pid: str, tier: str, seed: int) -> int:
     if err and not new_by_key:
         reasons.append("evidence does not validate: " + err)
         coverage["inconclusive_reasons"] = reasons
-    os.makedirs(os.path.join(ROOT, "evidence"), exist_ok=True)
-    with open(os.path.join(ROOT, "evidence", f"{pid}.json"), "w") as f:
+    evdir = os.path.join(ROOT, ".work", "evidence-selftest") if os.environ.get("XV_PYPATH") else os.path.join(ROOT, "evidence")
+    os.makedirs(evdir, exist_ok=True)
+    with open(os.path.join(evdir, f"{pid}.json"), "w") as f:
         json.dump(ev, f, indent=1, default=str)
 
+    if os.environ.get("XV_PYPATH"):
+        print("xdsl_path override (self-test):", os.environ["XV_PYPATH"])
     print(f"[{pid}] tier={tier} seed={seed} evaluations={agg.evaluations} "
           f"distinct_nontrivial={len(agg.nontrivial)} shards={len(jobs)} wall={ev['wall_s']}s")
     for k, v in sorted(agg.counters.items()):
